@@ -101,6 +101,11 @@ const (
 	kCut         = "cut"      // 200, Content-Length of the full body, connection closed after half of it
 	kChunked     = "chunked"  // 200, chunked, connection closed inside the second chunk
 
+	// Oversized bodies without a Content-Length: a complete, properly
+	// terminated chunked stream that is longer than the size limit.
+	kOversizeChunked    = "oversize-chunked"     // the complete offered version, then padding beyond the limit
+	kOversizeChunkedCut = "oversize-chunked-cut" // padding after the first marker, so that the limit falls inside a later rule of the offered version
+
 	kNotJSON  = "notjson"  // 200, first half of the offered index (syntactically broken JSON), consistent Content-Length
 	kBadKey   = "badkey"   // rule-list index: the entry of list 2 has an invalid filterKey
 	kEmptyURL = "emptyurl" // rule-list index: the entry of list 2 has an empty downloadUrl
@@ -215,7 +220,8 @@ func in2(s string, set []string) (ok bool) {
 }
 
 // fetchFaults are the kinds after which no complete body was delivered.
-var fetchFaults = []string{kDial, kTimeout, kTimeoutBody, k404, k500, kEmpty, kOversize, kCut, kChunked}
+var fetchFaults = []string{kDial, kTimeout, kTimeoutBody, k404, k500, kEmpty, kOversize, kCut, kChunked,
+	kOversizeChunked, kOversizeChunkedCut}
 
 // kindsFor returns the deviation kinds applicable to a download position.
 func kindsFor(pos string) (kinds []string) {
@@ -238,6 +244,10 @@ func kindsFor(pos string) (kinds []string) {
 // instead of a missing key, the swapped variants other than swap+nourl, the
 // service-index shapes added later) are explored with up to two deviations.
 func coreKind(pos, kind string) (ok bool) {
+	if kind == kOversizeChunkedCut {
+		// Near-duplicate of kOversizeChunked.
+		return false
+	}
 	if isFetchFault(kind) || kind == kNotJSON {
 		return true
 	}
@@ -608,6 +618,8 @@ func rawResponse(pos, path string, v int, kind string) (raw []byte, stall bool) 
 		}
 
 		return ok(b.Len(), b.String()), false
+	case kOversizeChunked, kOversizeChunkedCut:
+		return chunkedOK(hdr, oversizedBody(pos, full, kind == kOversizeChunkedCut)), false
 	case kCut:
 		return ok(len(full), full[:len(full)/2]), false
 	case kChunked:
@@ -624,6 +636,79 @@ func rawResponse(pos, path string, v int, kind string) (raw []byte, stall bool) 
 
 		return ok(len(d), d), false
 	}
+}
+
+// padding returns n bytes that are ignored by the parser of the content at
+// pos: JSON whitespace for the indexes, comment lines for the lists.  n must be
+// at least 2 for the lists.
+func padding(pos string, n int) (pad string) {
+	if pos == posIdx || pos == posSvc {
+		return strings.Repeat(" ", n)
+	}
+	mark := "!"
+	if pos == posHP {
+		mark = "#"
+	}
+	b := &strings.Builder{}
+	for n > 0 {
+		l := 64
+		if n < l+2 {
+			// The last line takes what is left (never a lone byte).
+			l = n
+		}
+		b.WriteString(mark + strings.Repeat("p", l-2) + "\n")
+		n -= l
+	}
+
+	return b.String()
+}
+
+// oversizedBody returns a body that is the complete content full made longer
+// than the size limit of pos by padding the parser ignores.  If cut is false
+// the padding follows the content, so the first limit bytes hold the whole
+// offered version.  If cut is true the padding is inserted right after the
+// first marker (after the opening bracket of the array for the indexes), so
+// that the limit falls in the middle of a later rule: the first limit bytes
+// contain the first marker but not the last one.
+func oversizedBody(pos, full string, cut bool) (body string) {
+	limit := maxSizeOf(pos)
+	if !cut {
+		return full + padding(pos, limit+512-len(full))
+	}
+	var sp int
+	switch pos {
+	case posIdx, posSvc:
+		sp = strings.IndexByte(full, '[') + 1
+	case posHP:
+		sp = strings.IndexByte(full, '\n') + 1
+	default:
+		// Header comment and the first marker rule.
+		sp = strings.IndexByte(full, '\n') + 1
+		sp += strings.IndexByte(full[sp:], '\n') + 1
+	}
+	pre, post := full[:sp], full[sp:]
+	// The limit falls len(post)/2 bytes into post; nudge it off a line end.
+	at := len(post) / 2
+	for at > 0 && (post[at] == '\n' || post[at-1] == '\n') {
+		at--
+	}
+
+	return pre + padding(pos, limit-len(pre)-at) + post
+}
+
+// chunkedOK returns a complete 200 answer with the body in chunked transfer
+// encoding, terminated by the zero chunk.
+func chunkedOK(hdr, body string) (raw []byte) {
+	b := &strings.Builder{}
+	fmt.Fprintf(b, "HTTP/1.1 200 OK\r\n%sContent-Type: text/plain\r\nTransfer-Encoding: chunked\r\n\r\n", hdr)
+	for len(body) > 0 {
+		n := min(len(body), 1000)
+		fmt.Fprintf(b, "%x\r\n%s\r\n", n, body[:n])
+		body = body[n:]
+	}
+	b.WriteString("0\r\n\r\n")
+
+	return []byte(b.String())
 }
 
 // nopColl discards collected errors.
